@@ -1,11 +1,13 @@
 # -*- coding: utf-8 -*-
 """C12 -- schema -> SDL -> schema is the identity; printing is history-independent."""
 import os
+import re
 from .. import gen_sdl, sdl_impl, ser, ser_sdl
 
 PROP = "C12"
 THEOREMS = ["C12_default_roundtrip_partial", "C12_description_roundtrip_partial",
-            "C12_members_roundtrip_partial", "C12_pure"]
+            "C12_members_roundtrip_partial", "C12_pure", "C12_custom_int_roundtrip",
+            "C12_members_roundtrip_refuted"]
 AXIOMS_OK = []
 RUN_MODULE = "Run.C12run Schema.SdlPrint Spec.SdlRoundtripSpec"
 AGREE = "agree_C12"
@@ -20,7 +22,10 @@ LEVEL_NOTE = ("Theorems are about the Gallina model Schema/SdlPrint.v of sdl/ast
 RULE = ("SDL-built and code-built schemas from harness/gen_sdl.py (internal enum values, python names, "
         "defaults of every input kind, descriptions incl. re-wrapped ones, deprecations, custom directives), "
         "all printer options (indent int/str, descriptions, introspection, custom directives off/all/list), "
-        "call histories of length 1..6 over 1..2 schemas in a process with fresh module state; "
+        "call histories of length 1..6 over 1..2 schemas in a process with fresh module state; plus schemas "
+        "whose custom scalars / String / ID carry ==-equal defaults of different Python types (True/1/1.0, "
+        "False/0/0.0, also in lists and input objects), within one schema and across schemas sharing the "
+        "scalar objects printed in sequence; "
         "non-trivial = history longer than one call or non-default options; distinct = distinct (sources, history)")
 
 DEFAULT = {"indent": 4, "descriptions": True, "introspection": False, "custom": False}
@@ -60,10 +65,16 @@ def corpus():
     out.append(_case([s30], [[0, all_custom]], "row30"))
     out.append(_case([s30], [[0, all_custom], [0, all_custom], [0, DEFAULT], [0, all_custom]], "row30"))
     out.append(_case([s30], [[0, _opts(custom=["foo"])], [0, all_custom], [0, _opts(custom=["foo"])]], "row30"))
-    # row 31: numeric-looking strings of custom scalars
-    out.append(_case([_sdl('scalar S\ntype Query { a(x: S = "1.50", y: S = "nan", w: S = "1e3", v: S = " 5", '
-                           'u: S = "-0.0e-5", t: S = "1.", i: S = "Infinity", k: S = "12", m: S = "007"): Int }')],
+    # row 31 (C12-02): strings float() accepts but that are not number literals stay strings
+    out.append(_case([_sdl('scalar S\ntype Query { a(y: S = "nan", v: S = " 5", t: S = "1.", i: S = "Infinity", '
+                           'm: S = "007", n: S = 12, f: S = 1.50, l: [S!] = [1, "a", true, 2.5]): Int }')],
                      [[0, DEFAULT]], "row31"))
+    # open finding: a string default of a custom scalar whose text is a number literal
+    out.append(_case([_sdl('scalar S\ntype Query { a(x: S = "1.50"): Int }')], [[0, DEFAULT]],
+                     "custom-scalar-numeric-string-default"))
+    out.append(_case([_sdl('scalar S\ninput I { s: [S] = ["12", "abc"] }\ntype Query { a(i: I = {s: "1e3"}, '
+                           'u: S = "-0.0e-5"): Int }')], [[0, DEFAULT], [0, _opts(indent=2)]],
+                     "custom-scalar-numeric-string-default"))
     # row 40: input object defaults keyed by python_name
     out.append(_case([{"code": ROW40_SPEC}], [[0, DEFAULT]], "row40"))
     # default root names that are not roots (C12-04)
@@ -103,7 +114,82 @@ input I @foo { "f" x: Int = 1 @foo y: E = A l: [Float] = 1 d: Date = "2020-01-01
     for o in (DEFAULT, _opts(indent=8), _opts(indent="\t\t")):
         out.append(_case([descs], [[0, o]], "descriptions"))
     out.append(_case([_sdl("type Query { a: Int }")], [[0, _opts(introspection=True)], [0, DEFAULT]], "introspection"))
+    # seeded C12-a: defaults that are == but of different Python types must not share a rendering
+    out.append(_case([_sdl("scalar Any\ninput In { x: Any = 1, y: Any = true, z: Any = 1.0 }\n"
+                           "type Query { q(a: Any = true, b: Any = 1, c: Any = 1.0, d: Any = 0, e: Any = false, "
+                           "f: Any = 0.0, l: [Any] = [true, 1, 1.0], i: In = {x: 1.0, y: 1}): Int }")],
+                     [[0, DEFAULT], [0, DEFAULT]], "typed-equal-defaults"))
+    import random as _random
+    for k in range(3):
+        out.append(_typed_equal_case(_random.Random(1000 + k)))
     return out
+
+
+# ---- defaults that are == but of different Python types --------------------
+# (True, 1, 1.0) and (False, 0, 0.0) hash and compare equal; the literal a
+# custom scalar / String / ID prints depends on the type of the value.
+_EQ = {1: [{"k": "bool", "v": True}, {"k": "int", "v": "1"}, {"k": "float", "v": "1.0"}],
+       0: [{"k": "bool", "v": False}, {"k": "int", "v": "0"}, {"k": "float", "v": "0.0"}]}
+_EQ_PY = {1: [{"t": "bool", "v": True}, {"t": "int", "v": "1"}, {"t": "float", "v": "1.0"}],
+          0: [{"t": "bool", "v": False}, {"t": "int", "v": "0"}, {"t": "float", "v": "0.0"}]}
+
+
+def _iv(name, t, default):
+    return {"name": name, "desc": None, "type": t, "default": default, "dirs": []}
+
+
+def _typed_equal_spec(rng, code, pick=None):
+    """a small schema whose custom scalars (and, code-built, String / ID) carry
+    defaults drawn from the two classes; [pick] fixes which member every
+    scalar-typed default uses (for schemas that share the scalar object)"""
+    def lit(cls=None):
+        cls = rng.choice([0, 1]) if cls is None else cls
+        i = rng.randrange(3) if pick is None else pick
+        return _EQ[cls][i]
+
+    def pylit(cls=None):
+        cls = rng.choice([0, 1]) if cls is None else cls
+        i = rng.randrange(3) if pick is None else pick
+        return {"k": "py", "v": _EQ_PY[cls][i]}
+
+    args = [_iv(n, rng.choice(["Any", "Any", "Blob", {"nn": "Any"}]), lit()) for n in
+            rng.sample(["a", "b", "c", "d", "e", "f"], rng.randint(3, 6))]
+    args.append(_iv("l", {"list": "Any"}, {"k": "list", "v": [lit() for _ in range(rng.randint(1, 4))]}))
+    args.append(_iv("i", "In", {"k": "obj", "v": [["x", lit()], ["y", lit()]]}))
+    fields = [{"name": "q", "desc": None, "args": args, "type": "Int", "dep": None, "dirs": []}]
+    if code:
+        sargs = [_iv(n, t, pylit()) for n, t in rng.sample(
+            [("s1", "String"), ("s2", "String"), ("s3", "String"), ("i1", "ID"), ("i2", "ID"), ("i3", "ID")],
+            rng.randint(2, 5))]
+        fields.append({"name": "r", "desc": None, "args": sargs, "type": "Any", "dep": None, "dirs": []})
+    types = [
+        {"kind": "scalar", "name": "Any", "desc": None, "dirs": []},
+        {"kind": "scalar", "name": "Blob", "desc": None, "dirs": []},
+        {"kind": "input", "name": "In", "desc": None, "dirs": [], "fields": [
+            _iv("x", "Any", lit(1)), _iv("y", "Any", lit()), _iv("z", {"list": {"nn": "Blob"}}, {"k": "list", "v": [lit(), lit()]})]},
+        {"kind": "object", "name": "Query", "desc": None, "dirs": [], "ifaces": [], "fields": fields},
+    ]
+    return {"types": types, "directives": [], "roots": {"query": "Query"}, "explicit_schema": False,
+            "schema_dirs": []}
+
+
+def _typed_equal_case(rng, label="typed-equal-defaults"):
+    c = rng.random()
+    if c < 0.4:
+        # one SDL schema, several == defaults of different types on one scalar
+        text, _ = gen_sdl.render(_typed_equal_spec(rng, False), rng, split=False, permute=False)
+        schemas = [{"sdl": text}]
+        steps = [[0, dict(DEFAULT)]] * rng.randint(1, 2)
+    else:
+        # schemas that share the scalar *objects* (code-built; String / ID are shared by every
+        # schema of the process), each using another member of the classes, printed in sequence
+        order = rng.sample([0, 1, 2], 3)[:rng.randint(2, 3)]
+        schemas = [{"code": _typed_equal_spec(rng, True, pick=(i if rng.random() < 0.7 else None)),
+                    "share": True, "pynames": False} for i in order]
+        steps = [[i, dict(DEFAULT)] for i in range(len(schemas))]
+        steps += [[rng.randrange(len(schemas)), rng.choice([dict(DEFAULT), _opts(indent=2)])]
+                  for _ in range(rng.randint(0, 3))]
+    return _case(schemas, steps[:6], label)
 
 
 def _rand_opts(rng):
@@ -136,6 +222,8 @@ def generate(rng, tier):
             pool = [_rand_opts(rng) for _ in range(rng.randint(1, 3))] + [dict(DEFAULT)]
             steps = [[rng.randrange(len(schemas)), rng.choice(pool)] for _ in range(rng.randint(2, 6))]
         cases.append(_case(schemas, steps))
+    for _ in range(25 if tier == "quick" else 300):
+        cases.append(_typed_equal_case(rng))
     return cases
 
 
@@ -181,14 +269,80 @@ def canonical(case):
     return repr((case["schemas"], case["steps"]))
 
 
+_INT_RE = re.compile(r"^-?(0|[1-9][0-9]*)\Z")
+_FLOAT_RE = re.compile(r"^-?(0|[1-9][0-9]*)(\.[0-9]+([eE][+-]?[0-9]+)?|[eE][+-]?[0-9]+)\Z")
+KEY_NUMERIC_STRING = "custom-scalar-numeric-string-default"
+
+
+def _numeric_string_defaults(dump):
+    """paths of string defaults of custom scalars whose text is a GraphQL
+    int / float literal (exactly the class of the open finding)"""
+    kinds = {t["name"]: t for t in dump["types"]}
+
+    def base(t):
+        while not isinstance(t, str):
+            t = t.get("nn") or t.get("list")
+        return t
+
+    def walk(j, t, path, out, depth=0):
+        if j is None or depth > 8:
+            return
+        k = j["t"]
+        if k == "list":
+            inner = t
+            while not isinstance(inner, str) and "nn" in inner:
+                inner = inner["nn"]
+            inner = inner["list"] if not isinstance(inner, str) and "list" in inner else inner
+            for x in j["v"]:
+                walk(x, inner, path, out, depth + 1)
+            return
+        td = kinds.get(base(t))
+        if td is None:
+            return
+        if td["kind"] == "scalar" and k == "str" and (_INT_RE.match(j["v"]) or _FLOAT_RE.match(j["v"])):
+            out.append(path)
+        elif td["kind"] == "input" and k == "dict":
+            fields = {f["py"]: f for f in td["fields"]}
+            for key, v in j["v"]:
+                if key in fields:
+                    walk(v, fields[key]["type"], path + "." + key, out, depth + 1)
+
+    out = []
+
+    def ivalues(owner, ivs):
+        for a in ivs:
+            walk(a["default"], a["type"], "%s(%s)" % (owner, a["name"]), out)
+    for t in dump["types"]:
+        if t["kind"] in ("object", "interface"):
+            for f in t["fields"]:
+                ivalues("%s.%s" % (t["name"], f["name"]), f["args"])
+        elif t["kind"] == "input":
+            ivalues(t["name"], t["fields"])
+    for d in dump["directives"]:
+        ivalues("@" + d["name"], d["args"])
+    return out
+
+
+def _finding_key(case, obs):
+    if any(_numeric_string_defaults(d) for d in obs.get("dumps", [])):
+        return KEY_NUMERIC_STRING
+    return None
+
+
 def classify(case, obs):
-    return "printed-text-is-the-function-of-schema-and-options", None
+    # the model prints the same text; what fails for this class is the Spec
+    # (members_roundtrip) evaluated next to it
+    return "printed-text-is-the-function-of-schema-and-options", _finding_key(case, obs)
+
+
+_ROUNDTRIP_CHECKS = ("rebuilt-schema-identical", "rebuilt-defaults-identical", "second-print-identical")
 
 
 def direct_checks(case, obs):
     out = []
+    key = _finding_key(case, obs)
     for c in obs.get("checks", []):
-        out.append((c, None))
+        out.append((c, key if c.startswith(_ROUNDTRIP_CHECKS) else None))
     for st in obs["steps"]:
         if "text" not in st:
             out.append(("to_string-raises: %s" % st.get("type", st.get("exc")), None))
